@@ -45,7 +45,7 @@ def confirm(dst):
 
 def detect(dst, pid, tier):
     rc, out = sh(f"{V}/tools/mutant.sh {dst}/patch.diff {pid} {tier}", timeout=7200)
-    keys = re.findall(r"key=(\S+) count=(\d+)", out)
+    keys = re.findall(r"key=(.+?) count=(\d+)", out)
     verdict = re.findall(r"verdict=(\w+)", out)
     return {"check": pid, "tier": tier, "exit": rc, "verdict": verdict[-1] if verdict else None, "violation_keys": [[k, int(c)] for k, c in keys][:12]}
 
